@@ -29,7 +29,7 @@ for p in props:
         "evidence_file": f"/verif/evidence/{pid}.json",
         "replay_cmd_template": "./check --replay {path}",
         "engine": "vcgen",
-        "level_claimed": {"category": "proof", "text": c["level_text"], "design_ref": c.get("design_ref", "DESIGN.md §3")},
+        "level_claimed": {"category": {"bounded": "other"}.get(c.get("category", "proof"), c.get("category", "proof")), "text": c["level_text"], "design_ref": c.get("design_ref", "DESIGN.md §3")},
         "level_note": c["level_note"],
         "technique": c.get("technique", "contract-based deductive verification: weakest-precondition style VCs generated from go/ssa of the real code, contracts as //@ comments, discharged by z3/cvc5"),
     })
